@@ -38,6 +38,13 @@ func mainLoop(L *LState, baseframe *callFrame) {
 		if jumpTable[int(inst>>26)](L, inst, baseframe) == 1 {
 			return
 		}
+		if L.ctx != nil {
+			// a Go function called by the script has attached a context
+			// (SetContext) while this loop was running: go on in the loop
+			// that watches it
+			mainLoopWithContext(L, baseframe)
+			return
+		}
 	}
 }
 
@@ -70,6 +77,13 @@ func mainLoopWithContext(L *LState, baseframe *callFrame) {
 		inst = cf.Fn.Proto.Code[cf.Pc]
 		cf.Pc++
 		verifStep(L)
+		if L.ctx == nil {
+			// the context was removed (RemoveContext) while this loop was
+			// running: step back and go on in the plain loop
+			cf.Pc--
+			mainLoop(L, baseframe)
+			return
+		}
 		select {
 		case <-L.ctx.Done():
 			L.RaiseError(L.ctx.Err().Error())
